@@ -159,6 +159,10 @@ func runBeh(idx int, steps []Step) []*Mismatch {
 		if !st.OK {
 			down = errDown
 		}
+		// every other step the consumer behind the helper is one that declares MutatesData and takes the payload
+		// away before it returns (what a batching or queueing consumer does): the helper owns nothing after the
+		// hand-over, its ledger must have been computed from what it handed over
+		greedy := (idx+k)%2 == 1
 		switch st.Op {
 		case "recv":
 			switch st.Sig {
@@ -173,7 +177,7 @@ func runBeh(idx int, steps []Step) []*Mismatch {
 				obs.EndLogsOp(c, "fmt", st.N, down)
 			}
 		case "ctl":
-			if err := runCtl(rset, st, down); err != nil {
+			if err := runCtl(rset, st, down, greedy); err != nil {
 				return append(out, &Mismatch{Beh: idx, Step: k, Steps: steps, Got: Snap{Led: map[string]map[string]int64{"error": {err.Error(): 1}}}})
 			}
 		case "proc":
@@ -190,7 +194,7 @@ func runBeh(idx int, steps []Step) []*Mismatch {
 			}
 			switch st.Sig {
 			case "logs":
-				next, _ := consumer.NewLogs(func(context.Context, plog.Logs) error { return down })
+				next, _ := consumer.NewLogs(func(_ context.Context, ld plog.Logs) error { takeLogs(greedy, ld); return down }, caps(greedy))
 				p, err := processorhelper.NewLogs(ctx, pset, struct{}{}, next, func(_ context.Context, _ plog.Logs) (plog.Logs, error) {
 					return mkLogs(nout), fnErr
 				})
@@ -198,7 +202,7 @@ func runBeh(idx int, steps []Step) []*Mismatch {
 					_ = p.ConsumeLogs(ctx, mkLogs(st.N))
 				}
 			case "traces":
-				next, _ := consumer.NewTraces(func(context.Context, ptrace.Traces) error { return down })
+				next, _ := consumer.NewTraces(func(_ context.Context, td ptrace.Traces) error { takeTraces(greedy, td); return down }, caps(greedy))
 				p, err := processorhelper.NewTraces(ctx, pset, struct{}{}, next, func(_ context.Context, _ ptrace.Traces) (ptrace.Traces, error) {
 					return mkTraces(nout), fnErr
 				})
@@ -206,7 +210,7 @@ func runBeh(idx int, steps []Step) []*Mismatch {
 					_ = p.ConsumeTraces(ctx, mkTraces(st.N))
 				}
 			case "metrics":
-				next, _ := consumer.NewMetrics(func(context.Context, pmetric.Metrics) error { return down })
+				next, _ := consumer.NewMetrics(func(_ context.Context, md pmetric.Metrics) error { takeMetrics(greedy, md); return down }, caps(greedy))
 				p, err := processorhelper.NewMetrics(ctx, pset, struct{}{}, next, func(_ context.Context, _ pmetric.Metrics) (pmetric.Metrics, error) {
 					return mkMetrics(nout), fnErr
 				})
@@ -238,7 +242,29 @@ func diff(a, b Snap) Snap {
 }
 
 // runCtl performs exactly one scrape of a real scraper controller (the initial scrape at Start) and stops it.
-func runCtl(rset receiver.Settings, st Step, down error) error {
+func caps(greedy bool) consumer.Option {
+	return consumer.WithCapabilities(consumer.Capabilities{MutatesData: greedy})
+}
+
+func takeLogs(greedy bool, ld plog.Logs) {
+	if greedy {
+		ld.ResourceLogs().MoveAndAppendTo(plog.NewLogs().ResourceLogs())
+	}
+}
+
+func takeTraces(greedy bool, td ptrace.Traces) {
+	if greedy {
+		td.ResourceSpans().MoveAndAppendTo(ptrace.NewTraces().ResourceSpans())
+	}
+}
+
+func takeMetrics(greedy bool, md pmetric.Metrics) {
+	if greedy {
+		md.ResourceMetrics().MoveAndAppendTo(pmetric.NewMetrics().ResourceMetrics())
+	}
+}
+
+func runCtl(rset receiver.Settings, st Step, down error, greedy bool) error {
 	called := make(chan struct{}, 4)
 	var scrapeErr error
 	switch st.Mode {
@@ -256,7 +282,11 @@ func runCtl(rset receiver.Settings, st Step, down error) error {
 	typ := component.MustNewType("vscr")
 	switch st.Sig {
 	case "metrics":
-		next, _ := consumer.NewMetrics(func(context.Context, pmetric.Metrics) error { called <- struct{}{}; return down })
+		next, _ := consumer.NewMetrics(func(_ context.Context, md pmetric.Metrics) error {
+			takeMetrics(greedy, md)
+			called <- struct{}{}
+			return down
+		}, caps(greedy))
 		f := scraper.NewFactory(typ, func() component.Config { return struct{}{} },
 			scraper.WithMetrics(func(context.Context, scraper.Settings, component.Config) (scraper.Metrics, error) {
 				return scraper.NewMetrics(func(context.Context) (pmetric.Metrics, error) { return mkMetrics(st.N), scrapeErr })
@@ -267,7 +297,11 @@ func runCtl(rset receiver.Settings, st Step, down error) error {
 		}
 		start, stop = r.Start, r.Shutdown
 	case "logs":
-		next, _ := consumer.NewLogs(func(context.Context, plog.Logs) error { called <- struct{}{}; return down })
+		next, _ := consumer.NewLogs(func(_ context.Context, ld plog.Logs) error {
+			takeLogs(greedy, ld)
+			called <- struct{}{}
+			return down
+		}, caps(greedy))
 		f := scraper.NewFactory(typ, func() component.Config { return struct{}{} },
 			scraper.WithLogs(func(context.Context, scraper.Settings, component.Config) (scraper.Logs, error) {
 				return scraper.NewLogs(func(context.Context) (plog.Logs, error) { return mkLogs(st.N), scrapeErr })
